@@ -922,6 +922,7 @@ fn nameh_cases(few: bool, rng: &mut Rng) -> Vec<HCase> {
 
 async fn nameh_part(cx: &mut Ctx, pki: &Pki, round: &Round, cases: &[HCase]) {
     let model: Option<Vec<String>> = cx.drv.as_mut().map(|d| d.batch(&cases.iter().map(HCase::model_line).collect::<Vec<_>>()));
+    let t0 = std::time::Instant::now();
     for (i, c) in cases.iter().enumerate() {
         let key = c.key(round);
         cx.rep.case(Some(fnv(key.as_bytes())));
@@ -953,6 +954,7 @@ async fn nameh_part(cx: &mut Ctx, pki: &Pki, round: &Round, cases: &[HCase]) {
             cx.rep.sample(json!({"nameh": c.to_json(), "requested_name": c.want(), "impl": format!("{obs:?}")}));
         }
     }
+    cx.rep.count_n("nameh/ms", t0.elapsed().as_millis() as u64);
 }
 
 // ---------------------------------------------------------------------------------------------
